@@ -3,8 +3,9 @@
 # /repo itself), runs the named checks (default: all 20) on the copy in parallel and prints, per check that
 # alarms, the first failing instances. Last line: "ALARMS: Cxx Cyy" (or "ALARMS: none"). Development aid.
 p=$(realpath "$1"); shift
+[ -x "${VERIF_DIR:-$(cd "$(dirname "$0")/.." && pwd)}/bin/gunyucheck" ] || { echo "build the checker first (./setup.sh)"; exit 2; }
 props="$*"; [ -n "$props" ] || props=$(seq -f 'C%02g' 1 20)
-V=/verif
+V=${VERIF_DIR:-$(cd "$(dirname "$0")/.." && pwd)}
 sc=$(mktemp -d /tmp/gunyu_all.XXXXXX); trap 'rm -rf "$sc"' EXIT
 mkdir -p "$sc/repo" "$sc/verif"; rsync -a --exclude .git /repo/ "$sc/repo/"; cp $V/known_findings.json "$sc/verif/"
 (cd "$sc/repo" && git apply "$p") || { echo "patch does not apply"; exit 2; }
